@@ -136,6 +136,10 @@ func (c04) Gen(tier string, seed int64, emit func([]Ev)) {
 			g[4] ^= 1
 		}
 		emit([]Ev{{"op": "exttime", "bytes": B(g)}})
+		// the field at the front of a longer slice (the rest of a header, of an adaptation field): only the first
+		// five (six) bytes count
+		emit([]Ev{{"op": "exttime", "bytes": B(append(append([]byte(nil), t...), rndBytes(r, 1+r.Intn(12))...))}})
+		emit([]Ev{{"op": "extpcr", "bytes": B(append(append([]byte(nil), b...), rndBytes(r, 1+r.Intn(12))...))}})
 	}
 }
 
@@ -162,6 +166,8 @@ func (c04) Exec(h []Ev) []Ev {
 				e["after"] = B(buf)
 				e["back_gots"] = W64(gots.ExtractTime(buf[:5]))
 				e["back_pes"] = W64(pes.ExtractTime(buf[:5]))
+				e["back_gots_whole"] = W64(gots.ExtractTime(buf)) // the same field read from the whole buffer (two more bytes behind it)
+				e["back_pes_whole"] = W64(pes.ExtractTime(buf))
 			case "e2e_withpes":
 				v := UW64(e["v"])
 				p := packet.Create(GI(e["pid"]), packet.WithPUSI, func(q *packet.Packet) { packet.WithPES(q, v) })
